@@ -1,4 +1,6 @@
 import Cgm.Lemmas.AuditCmd
 import Cgm.E2E.C01
 import Cgm.E2E.C01h
+import Cgm.E2E.C01i
+import Cgm.E2E.C01j
 #audit_namespace Cg.E2E.C01
